@@ -14,6 +14,21 @@ import (
 // reported for the rendered text), plus the oracles for every token of both texts.
 type rtIn struct {
 	Defs []rt.Def `json:"defs"`
+	// Custom: the first table is built by NewTableCustom from the structured definitions (the custom backend's
+	// entry point) instead of NewTable from their text — it then owes nothing to Parse
+	Custom bool `json:"custom,omitempty"`
+}
+
+// firstTable builds the table the round trip starts from.
+func firstTable(in *rtIn, src string) (route.Table, error) {
+	if in.Custom && expressibleAll(in.Defs) {
+		defs := make([]route.RouteDef, len(in.Defs))
+		for i := range in.Defs {
+			defs[i] = in.Defs[i].RouteDef()
+		}
+		return route.NewTableCustom(&defs)
+	}
+	return route.VerifNewTable(src)
 }
 
 func runRoundtrip(raw json.RawMessage) (interface{}, error) {
@@ -26,7 +41,7 @@ func runRoundtrip(raw json.RawMessage) (interface{}, error) {
 	}
 	src := rt.Text(in.Defs)
 	out := map[string]interface{}{"src": src}
-	t, err := route.VerifNewTable(src)
+	t, err := firstTable(&in, src)
 	if err != nil {
 		out["t"] = map[string]interface{}{"error": loadErr(err)}
 		out["oracle"] = map[string]interface{}{}
@@ -37,6 +52,10 @@ func runRoundtrip(raw json.RawMessage) (interface{}, error) {
 	out["text"] = text
 	t2, err2 := route.VerifNewTable(text)
 	out["t2"] = tableOrErr(t2, err2)
+	if err2 == nil {
+		// the text is a fixpoint: the rebuilt table renders to the very same text
+		out["text2"] = t2.String()
+	}
 	pf, urls, globs := textOracle(src + "\n" + text)
 	// is url.Parse∘String idempotent and free of white space on the URLs the table holds?
 	urlOK := true
@@ -87,7 +106,7 @@ func genRoundtrip(r *hx.Rand, i int) interface{} {
 			ds = ok
 		}
 	}
-	return rtIn{Defs: ds}
+	return rtIn{Defs: ds, Custom: r.Chance(1, 2)}
 }
 
 func init() {
